@@ -41,6 +41,18 @@ func u64(l []int) uint64 {
 func (v Val) goValue() interface{} {
 	switch v.T {
 	case "nil":
+		switch v.S { // nil values of concrete types, as Go hands them over (an unset field, a typed nil bound by the host): nil all the same
+		case "chan":
+			return (chan int64)(nil)
+		case "func":
+			return (func())(nil)
+		case "slice":
+			return []interface{}(nil)
+		case "map":
+			return map[interface{}]interface{}(nil)
+		case "ptr":
+			return (*int64)(nil)
+		}
 		return nil
 	case "bool":
 		return v.L[0] == 1
@@ -89,6 +101,48 @@ var scripts = map[string]string{
 	"inn":  "a in [b]",
 	"sw":   "func() { switch a { case b: return true }; return false }()",
 	"lege": "a <= b && a >= b",
+}
+
+// the same uses with one operand written as a LITERAL in the source (%[1]s the left operand, %[2]s the right one)
+var scriptsLit = map[string]string{
+	"eq":   "%[1]s == %[2]s",
+	"ne":   "%[1]s != %[2]s",
+	"inn":  "%[1]s in [%[2]s]",
+	"sw":   "func() { switch %[1]s { case %[2]s: return true }; return false }()",
+	"lege": "%[1]s <= %[2]s && %[1]s >= %[2]s",
+}
+
+// literal spelling of a pool value, "" when it has none that every reader of the grammar agrees on
+func (v Val) literal() string {
+	switch v.T {
+	case "nil":
+		if v.S == "" {
+			return "nil"
+		}
+	case "bool":
+		if v.L[0] == 1 {
+			return "true"
+		}
+		return "false"
+	case "int":
+		return fmt.Sprint(int64(u64(v.L)))
+	case "flt":
+		f := math.Float64frombits(u64(v.L))
+		if f == math.Trunc(f) && math.Abs(f) < 1e15 && !(f == 0 && math.Signbit(f)) {
+			return fmt.Sprintf("%.1f", f)
+		}
+		if f == 0.5 || f == 1.5 {
+			return fmt.Sprint(f)
+		}
+	case "str":
+		for _, r := range v.S {
+			if r < 32 || r > 126 || r == '\\' || r == '"' {
+				return ""
+			}
+		}
+		return "\"" + v.S + "\""
+	}
+	return ""
 }
 
 // the same uses with both operands read out of containers (interface-typed slice elements), as values mostly are in real scripts
@@ -150,6 +204,12 @@ func main() {
 		for j := i; j < len(pool); j++ {
 			a, b := pool[i].goValue(), pool[j].goValue()
 			provs := []string{"plain", "elem"}
+			if pool[j].literal() != "" {
+				provs = append(provs, "litb") // b written as a literal, a in a variable
+			}
+			if pool[i].literal() != "" {
+				provs = append(provs, "lita")
+			}
 			// two views of ONE backing array: when a is a proper prefix of b, also compare b[:len(a)] with b
 			if la, ok := a.([]interface{}); ok {
 				if lb, ok := b.([]interface{}); ok && len(la) < len(lb) && reflect.DeepEqual(la, lb[:len(la)]) {
@@ -168,12 +228,19 @@ func main() {
 				o := map[string]interface{}{"i": i + 1, "j": j + 1, "prov": prov, "problems": []string{}}
 				var problems []string
 				for k, src := range set {
+					src2 := src // the use with the roles of a and b swapped
+					switch prov {
+					case "litb":
+						src, src2 = fmt.Sprintf(scriptsLit[k], "a", pool[j].literal()), fmt.Sprintf(scriptsLit[k], pool[j].literal(), "b")
+					case "lita":
+						src, src2 = fmt.Sprintf(scriptsLit[k], pool[i].literal(), "b"), fmt.Sprintf(scriptsLit[k], "a", pool[i].literal())
+					}
 					r, st := eval(a, b, src)
 					if st != "" {
 						problems = append(problems, k+": "+st)
 					}
 					o[k] = r
-					r2, st2 := eval(b, a, src)
+					r2, st2 := eval(b, a, src2)
 					if st2 != "" {
 						problems = append(problems, "r"+k+": "+st2)
 					}
